@@ -11,7 +11,7 @@ import (
 // threads one after the other; every heap access is logged with thread, locks held and spawn
 // order. Natively the same harness runs the threads concurrently under the race detector (replay).
 
-//vp:property C09
+//vp:property C09 C06
 //vp:flag lockset
 //vp:bounds two websocket tunnels A and B on one Gateway: each does the full set-up (4 packets), one DATA packet and then ends by an out-of-order packet (error response) while its backend has sent one chunk and stays open; idle timeout arbitrary (incl. negative); client writes may stall (the tunnel's other goroutines run while a packet is in flight); logical threads: handler A, handler B, relay goroutine of A, relay goroutine of B
 //vp:assume websocket/hijacked connections allow one concurrent writer (gorilla docs): the client transport's write log is the contended location; net.Conn, prometheus gauges and go-cache are safe for concurrent use
@@ -21,7 +21,7 @@ func VP_C09_ws() {
 	vpResetHandlers()
 	g := &Gateway{IdleTimeout: int(int32(vpU32("idle")))}
 	// A errs right after the channel opened (its relay is mid-write), B after one DATA packet
-	trA, trB := vpScript(4, 2), vpScript(5, 2)
+	trA, trB := vpScript(4, 2), vpScript(6, 2) // B: set-up, DATA, KEEPALIVE, then the out-of-order packet
 	trA.yieldOnRead, trB.yieldOnRead = true, true
 	trA.stallWrites, trB.stallWrites = true, true
 	tA := &Tunnel{RDGId: "conn-A", User: vpUser(), RemoteAddr: "10.0.0.1:1"}
